@@ -207,6 +207,12 @@ func execAll(p Prop, cases []string, r *Run) []Result {
 	if p.CaseTimeout == 0 {
 		p.CaseTimeout = 10 * time.Second
 	}
+	// A hang is reported as a violation, so the watchdog must not fire on a merely slow machine:
+	// never less than 90 s per case (a genuinely non-terminating case still ends the run: after
+	// maxAbnormal of them the remaining cases are skipped).
+	if p.CaseTimeout < 90*time.Second {
+		p.CaseTimeout = 90 * time.Second
+	}
 	var mu sync.Mutex
 	next := 0
 	abnormal := 0 // hangs and crashes so far; after maxAbnormal of them the rest is skipped
